@@ -420,6 +420,13 @@ func checkC06(c *runCtx) {
 	if !c.quick() {
 		depth = 7
 	}
+	// the remote IP filter against every form an address can arrive in (its own world: IPv4 and IPv6 local candidates)
+	if probs, n := c06filterForms(c.t); true {
+		c.add("transitions", n)
+		for _, pr := range probs {
+			c.violation("", "remote IP filter: "+pr, map[string]any{"part": "filter-forms"})
+		}
+	}
 	for _, role := range []string{"controlling", "controlled"} {
 		name := fmt.Sprintf("bookkeeping, %s, all sequences of length <= %d", role, depth)
 		if only := os.Getenv("VERIF_ONLY"); only != "" && !strings.Contains(name, only) {
